@@ -199,6 +199,28 @@ Proof.
 Qed.
 Print Assumptions C16_history_invariant.
 
+(* 6a. The re-issued ticket.  When a resumed handshake stores a session (the offered ticket was opened with a
+   key that is no longer the first one, so the server sends a fresh ticket), the new ticket is a seal under
+   the server's first key of EXACTLY the state of the offered ticket - version, suite, master secret and the
+   client certificates of the original handshake - and the client's new session keeps the master secret
+   and the server identity; the server reports those client certificates for the resumed connection. *)
+Theorem C16_reissued_ticket_same_identity :
+  forall (tagT : Type) (mac : N -> N * N * sst -> tagT) tag_eqb junk, ideal_mac mac tag_eqb junk ->
+  forall cfg c idx sess (r : crec tagT) s',
+    connect mac tag_eqb cfg c idx sess = (r, Some s') -> r_cls r = Resumed ->
+    exists s st k ks,
+      sess = Some s
+      /\ decryptTicket_model mac tag_eqb (s_disabled cfg) (s_keys cfg) (cs_ticket s) = Some (st, true)
+      /\ s_keys cfg = k :: ks
+      /\ cs_ticket s' = seal mac k idx st
+      /\ st_certs (tk_state (cs_ticket s')) = st_certs (tk_state (cs_ticket s))
+      /\ st_ms (tk_state (cs_ticket s')) = st_ms (tk_state (cs_ticket s))
+      /\ cs_vers s' = st_vers st /\ cs_suite s' = st_suite st
+      /\ cs_ms s' = cs_ms s /\ cs_srv s' = cs_srv s
+      /\ r_ccert r = st_certs st /\ r_ms r = st_ms st.
+Proof. intros tagT mac tag_eqb junk (H1 & H2 & H3). exact (reissued_ticket_same_identity mac tag_eqb junk H1 H2 H3). Qed.
+Print Assumptions C16_reissued_ticket_same_identity.
+
 (* 6b. Record protection of a resumed connection is that of a full handshake.  A resumed handshake runs the
    establishKeys of a full one over the master secret it took from the ticket / the cached session (by
    C16_history_invariant: the issuing handshake's) and the fresh hello randoms.  For every master secret,
@@ -307,6 +329,16 @@ Example C16_history_example :
       RotateKeys 0 [4]; Connect 0 ex_cli; TamperTicket 0; Connect 0 ex_cli; Connect 0 ex_cli])
   = [(Full, 257, 57363, 0); (Resumed, 257, 57363, 0); (Resumed, 257, 57363, 0); (Resumed, 257, 57363, 0);
      (Full, 257, 57363, 4); (Full, 257, 57363, 5); (Resumed, 257, 57363, 5)].
+Proof. vm_compute. reflexivity. Qed.
+
+(* a session with a client certificate, a rotation that keeps the old key, and three more connections: the
+   first resumption gets a re-issued ticket, the later ones resume on it - always with the client identity 1 *)
+Example C16_reissue_example :
+  let cfg := mkS SGM (Some [57363]) false 4 false [1] in
+  let cli := mkC CG (Some [57363]) 1 0 true in
+  map (fun r => (r_cls r, r_ms r, r_ccert r, r_stored r))
+      (h_log (hrun_term 2 [cfg] [Connect 0 cli; RotateKeys 0 [3; 1]; Connect 0 cli; Connect 0 cli; Connect 0 cli]))
+  = [(Full, 0, 1, true); (Resumed, 0, 1, true); (Resumed, 0, 1, false); (Resumed, 0, 1, false)].
 Proof. vm_compute. reflexivity. Qed.
 
 (* the hypotheses of C16_explicit_suite_resumes are met: the first connection is a full handshake that
